@@ -1,5 +1,5 @@
 use crate::model::network::graph::Graph;
-use crate::model::network::{network_error::NetworkError, vertex_id::VertexId};
+use crate::model::network::{edge_id::EdgeId, network_error::NetworkError, vertex_id::VertexId};
 use std::collections::HashSet;
 
 /// Conducts a depth-first search (DFS) on a directed graph.
@@ -31,13 +31,27 @@ pub fn depth_first_search(
 
     visited.insert(*vertex);
 
-    let edges = graph.out_edges(vertex);
-    for edge in edges {
-        let dst = graph.dst_vertex_id(&edge)?;
-        depth_first_search(graph, &dst, visited, stack)?;
+    // explicit frames (vertex, its out edges, position of the next edge) instead of recursion:
+    // same visiting and finishing order, but the depth is no longer limited by the call stack
+    let mut frames: Vec<(VertexId, Vec<EdgeId>, usize)> =
+        vec![(*vertex, graph.out_edges(vertex), 0)];
+    while let Some((current, edges, position)) = frames.last_mut() {
+        match edges.get(*position) {
+            Some(edge) => {
+                *position += 1;
+                let dst = graph.dst_vertex_id(edge)?;
+                if !visited.contains(&dst) {
+                    visited.insert(dst);
+                    let dst_edges = graph.out_edges(&dst);
+                    frames.push((dst, dst_edges, 0));
+                }
+            }
+            None => {
+                stack.push(*current);
+                frames.pop();
+            }
+        }
     }
-
-    stack.push(*vertex);
 
     Ok(())
 }
@@ -71,13 +85,26 @@ pub fn reverse_depth_first_search(
 
     visited.insert(*vertex);
 
-    let edges = graph.in_edges(vertex);
-    for edge in edges {
-        let src = graph.src_vertex_id(&edge)?;
-        reverse_depth_first_search(graph, &src, visited, stack)?;
+    // explicit frames, see depth_first_search
+    let mut frames: Vec<(VertexId, Vec<EdgeId>, usize)> =
+        vec![(*vertex, graph.in_edges(vertex), 0)];
+    while let Some((current, edges, position)) = frames.last_mut() {
+        match edges.get(*position) {
+            Some(edge) => {
+                *position += 1;
+                let src = graph.src_vertex_id(edge)?;
+                if !visited.contains(&src) {
+                    visited.insert(src);
+                    let src_edges = graph.in_edges(&src);
+                    frames.push((src, src_edges, 0));
+                }
+            }
+            None => {
+                stack.push(*current);
+                frames.pop();
+            }
+        }
     }
-
-    stack.push(*vertex);
 
     Ok(())
 }
